@@ -45,8 +45,9 @@ func verifHIsOrigin(id core.PeerID) bool {
 
 // verifHandout drives Server.announce (UpdatePeer on the real LocalStore,
 // getPeerHandout, SortPeers) with a sequence of announces and checks every
-// response. checkSelf selects the "never lists the announcing peer" clause,
-// which is checked in a harness of its own (see FINDINGS.md).
+// response. checkSelf selects the "never lists the announcing peer" clause; it
+// used to be confined to the Finding harness while the defect of FINDINGS.md was
+// open and is now checked everywhere.
 func verifHandout(policyName string, nannounce int, nagents int, checkSelf bool) {
 	verif.Option("max_preempt", 0)
 	verif.Option("sched_fixed", 1)
@@ -129,19 +130,18 @@ func verifHandout(policyName string, nannounce int, nagents int, checkSelf bool)
 	}
 }
 
-// VerifHandoutCompleteness: completeness policy, everything except the
-// self-exclusion clause.
+// VerifHandoutCompleteness: completeness policy, every clause.
 func VerifHandoutCompleteness() {
-	verifHandout("completeness", verif.Bound("announces", 3, 4), verif.Bound("agents", 3, 4), false)
+	verifHandout("completeness", verif.Bound("announces", 3, 4), verif.Bound("agents", 3, 4), true)
 }
 
 // VerifHandoutDefault: default policy (single priority class).
 func VerifHandoutDefault() {
-	verifHandout("default", verif.Bound("announces_default", 2, 3), verif.Bound("agents_default", 2, 3), false)
+	verifHandout("default", verif.Bound("announces_default", 2, 3), verif.Bound("agents_default", 2, 3), true)
 }
 
 // VerifHandoutFindingAnnouncerListed: the announcer never finds itself in its
-// own handout.
+// own handout (regression check for the fixed finding, FINDINGS.md).
 func VerifHandoutFindingAnnouncerListed() {
 	verifHandout("completeness", verif.Bound("announces_self", 2, 3), verif.Bound("agents_self", 2, 3), true)
 }
